@@ -63,8 +63,9 @@ def shapes(n):
     return out
 
 
-def build(shape, leaf_scripts):
-    """-> (root node or leaf, leaves in left-to-right order)"""
+def build(shape, leaf_scripts, touch=False):
+    """-> (root node or leaf, leaves in left-to-right order).  touch: ask every leaf of every subtree for its proof as soon as
+    the subtree exists (a tree grown step by step by someone who looks at intermediate proofs), before it is embedded further"""
     it = iter(leaf_scripts)
     leaves = []
 
@@ -73,7 +74,11 @@ def build(shape, leaf_scripts):
             lf = T.ScriptLeaf.from_script(T.Script.from_bytes(next(it)))
             leaves.append(lf)
             return lf
-        return T.ScriptNode(rec(s[0]), rec(s[1]))
+        nd = T.ScriptNode(rec(s[0]), rec(s[1]))
+        if touch:
+            for lf in _leaves_of(nd):
+                lf.unlocking_script()
+        return nd
     return rec(shape), leaves
 
 
@@ -167,7 +172,7 @@ def _leaves_of(nd):
     return out
 
 
-def check_tree(shape, bodies, leaf_idx, pre, corruption=None, k1=0, k2=0, dup=None):
+def check_tree(shape, bodies, leaf_idx, pre, corruption=None, k1=0, k2=0, dup=None, touch=False):
     fails = []
     n = len(bodies)
     scripts = [observed(bytes([i, 0x5a]), bodies[i]) for i in range(n)]
@@ -179,7 +184,7 @@ def check_tree(shape, bodies, leaf_idx, pre, corruption=None, k1=0, k2=0, dup=No
         raise ValueError('leaf too large')
     if shape == 'L':
         raise ValueError('a tree needs two leaves')
-    tree, leaves = build(shape, scripts)
+    tree, leaves = build(shape, scripts, touch and corruption is None)
     lock = tree.locking_script().bytes
     root = tree.root()
     leaf = leaves[leaf_idx % n]
@@ -316,7 +321,7 @@ def check_case(case):
             raise ValueError('shape/bodies')
         if case.get('corruption') is not None and case['corruption'] not in CORRUPTIONS:
             raise ValueError('corruption')
-        return check_tree(shape, bodies, case['leaf'], case['pre'], case.get('corruption'), case.get('k1', 0), case.get('k2', 0), case.get('dup'))[0]
+        return check_tree(shape, bodies, case['leaf'], case['pre'], case.get('corruption'), case.get('k1', 0), case.get('k2', 0), case.get('dup'), bool(case.get('touch')))[0]
     if k == 'builder':
         if not 1 <= case['n'] <= 40:
             raise ValueError('n')
@@ -340,8 +345,8 @@ def _shape_json(s):
     return 'L' if s == 'L' else [_shape_json(s[0]), _shape_json(s[1])]
 
 
-def _do_tree(ctx, shape, bodies, li, pre, cor, k1, k2, dup=None):
-    fails, info = check_tree(shape, bodies, li, pre, cor, k1, k2, dup)
+def _do_tree(ctx, shape, bodies, li, pre, cor, k1, k2, dup=None, touch=False):
+    fails, info = check_tree(shape, bodies, li, pre, cor, k1, k2, dup, touch)
     if info.get('skipped'):
         return
     n = len(bodies)
@@ -349,7 +354,10 @@ def _do_tree(ctx, shape, bodies, li, pre, cor, k1, k2, dup=None):
     if dup is not None:
         case['dup'] = list(dup)
         ctx.count('case:same-script-at-two-positions')
-    ctx.case((case['shape'], bodies, li, pre, cor, k1, k2, dup), n >= 3 or cor is not None)
+    if touch:
+        case['touch'] = True
+        ctx.count('case:proofs-asked-while-the-tree-grows')
+    ctx.case((case['shape'], bodies, li, pre, cor, k1, k2, dup, touch), n >= 3 or cor is not None)
     ctx.count('case:' + (cor or 'honest'))
     if cor and info.get('still_valid'):
         ctx.count('corruption-still-valid')
@@ -376,6 +384,7 @@ def task_shapes(ctx):
                 _do_tree(ctx, shape, bodies, li, pre, None, 0, 0)
             if n >= 3:
                 _do_tree(ctx, shape, bodies, li, PRES[idx % 3], None, 0, 0, (li, (li + 2 + idx % (n - 2)) % n))
+                _do_tree(ctx, shape, bodies, li, PRES[(idx + 1) % 3], None, 0, 0, None, True)
             for ci, cor in enumerate(CORRUPTIONS):
                 for rep in range(2 if not ctx.thorough() else 8):
                     h = hashlib.sha256(b'%d:%d:%d:%d:%d' % (ctx.base_seed, idx, li, ci, rep)).digest()
@@ -432,7 +441,7 @@ def rand_case(draw):
     if cor is None and n >= 3 and draw(st.booleans()):
         dup = tuple(draw(st.lists(st.integers(0, n - 1), min_size=2, max_size=2, unique=True)))
     return (shape, bodies, draw(st.integers(0, n - 1)), draw(st.sampled_from(PRES)), cor, draw(st.integers(0, 255)), draw(st.integers(0, 65535)),
-            dup)
+            dup, cor is None and draw(st.integers(0, 3)) == 0)
 
 
 def task_random(ctx):
